@@ -14,6 +14,7 @@ Conforms(o) ==
   /\ IF o.kind = "impostor"
      THEN /\ o.impostor \in ImpostorModes                      \* the host refuses a plugin that serves with another certificate or none
           /\ o.out.first_use_ok = HostUses(Announced(o.impostor), Presented(o.impostor))
+          /\ (o.impostor = "replay") => o.out.first_launch_ok     \* (the earlier, honest launch did work)
      ELSE IF o.kind = "mangled"
      THEN \* the host's certificate reached the plugin damaged: it may refuse to serve, but must not serve anybody
           \* who cannot prove to be the launching host (and nobody here can)
